@@ -37,6 +37,13 @@ P1Axis == {ACase(0, ins, p1, p2, d, "short", "axis-p1") : ins \in {1, 2, 3}, p1 
 DataAxis ==
     UNION {{ACase(0, ins, p1, 0, d, e, "axis-data") : e \in EncsFor(d), ins \in {1, 2, 3, 4}, p1 \in {0, 3, 7, 8}} : d \in DataClasses}
 
+\* the key handle's own limit: its length byte says 0..255, and what follows must be exactly that
+\* many bytes -- not that many modulo 256 (C12: limits are exact, accepted values are delivered whole)
+KeyHandleLimitCases ==
+    {ACase(0, 2, p1, 0, AuthData(kl[1], kl[2]), "ext", "limit:keyHandle") :
+        p1 \in {3, 7, 8},
+        kl \in {<<0, 0>>, <<1, 1>>, <<254, 254>>, <<255, 255>>, <<255, 254>>, <<256, 0>>, <<256, 255>>, <<257, 1>>, <<320, 64>>, <<511, 255>>, <<512, 0>>, <<1000, 232>>}}
+
 \* malformed framing: too short, inconsistent Lc, reserved class
 Malformed ==
     {[op |-> "apdu", tag |-> "malformed", wire |-> w] :
